@@ -146,15 +146,20 @@ func genMCC(t *rapid.T, label string) uint32 {
 
 func genCase(t *rapid.T) caseT {
 	var c caseT
-	switch rapid.IntRange(0, 9).Draw(t, "policy") {
-	case 0, 1, 2, 3, 4, 5:
+	switch rapid.IntRange(0, 11).Draw(t, "policy") {
+	case 0, 1, 2, 3, 4:
 		c.Policy = ua.SecurityPolicyURINone
-	case 6, 7:
+	case 5, 6:
 		c.Policy = ua.SecurityPolicyURIBasic256Sha256
-	case 8:
+	case 7:
 		c.Policy, c.Encrypt = ua.SecurityPolicyURIBasic256Sha256, true
-	case 9:
+	case 8:
 		c.Policy, c.Encrypt = ua.SecurityPolicyURIAes128Sha256RsaOaep, true
+	default:
+		// the other policies (20-byte signatures, PSS) in both modes: the maximum
+		// body size depends on signature length and block sizes
+		c.Policy = rapid.SampledFrom([]string{ua.SecurityPolicyURIBasic128Rsa15, ua.SecurityPolicyURIBasic256, ua.SecurityPolicyURIAes256Sha256RsaPss, ua.SecurityPolicyURIAes128Sha256RsaOaep}).Draw(t, "otherPolicy")
+		c.Encrypt = rapid.Bool().Draw(t, "otherEncrypt")
 	}
 	if rapid.IntRange(0, 9).Draw(t, "symmetric") == 0 {
 		b := genBuf(t, "allBuf")
@@ -347,10 +352,24 @@ func (c caseT) options(server ackT) chanpair.Options {
 	o := chanpair.Options{Policy: c.Policy, ClientACK: c.Client.ack(), ServerACK: server.ack(), Tap: true, RequestTimeout: reqTO}
 	if c.Policy != ua.SecurityPolicyURINone {
 		o.Mode = chanpair.ModeFor(c.Policy, c.Encrypt)
-		o.ClientKey = keys.Get("a", 2048)
-		o.ServerKey = keys.Get("b", 2048)
+		ks := chanpair.KeySizes(c.Policy) // Basic128Rsa15 / Basic256 do not admit every key size
+		bits := 2048
+		if !containsInt(ks, bits) {
+			bits = ks[0]
+		}
+		o.ClientKey = keys.Get("a", bits)
+		o.ServerKey = keys.Get("b", bits)
 	}
 	return o
+}
+
+func containsInt(xs []int, x int) bool {
+	for _, y := range xs {
+		if y == x {
+			return true
+		}
+	}
+	return false
 }
 
 func (r *runner) class(format string, args ...any) {
